@@ -183,16 +183,14 @@ func (e *Enc) structAddr(a Addr) (T, bool) {
 
 func (e *Enc) elemAddr(base, i T) T {
 	f := e.s.DeclareFun("elemaddr", []string{SInt, SInt}, SInt)
-	g := e.s.DeclareFun("elemidx", []string{SInt}, SInt)
-	h := e.s.DeclareFun("elembase", []string{SInt}, SInt)
-	t := T{"(" + f + " " + base.S + " " + i.S + ")", SInt}
-	// injectivity, instantiated per use (no quantifiers)
-	k := "elemaddr-ax:" + t.S
-	if !e.rangeSeen[k] {
-		e.rangeSeen[k] = true
-		e.s.Assume(And(Eq(App(SInt, g, t), i), Eq(App(SInt, h, t), base), Not(Eq(t, IntLit(0)))))
+	if !e.s.declSet["elemaddr-ax"] {
+		e.s.declSet["elemaddr-ax"] = true
+		g := e.s.DeclareFun("elemidx", []string{SInt}, SInt)
+		h := e.s.DeclareFun("elembase", []string{SInt}, SInt)
+		// elemaddr is injective and never nil (quantified once, with a trigger)
+		e.s.decls = append(e.s.decls, fmt.Sprintf("(assert (forall ((|eb| Int) (|ei| Int)) (! (and (= (%s (%s |eb| |ei|)) |ei|) (= (%s (%s |eb| |ei|)) |eb|) (not (= (%s |eb| |ei|) 0))) :pattern ((%s |eb| |ei|)))))", g, f, h, f, f, f))
 	}
-	return t
+	return T{"(" + f + " " + base.S + " " + i.S + ")", SInt}
 }
 
 // fieldAddr computes &x.f for a pointer-to-struct address.
@@ -226,15 +224,41 @@ func (e *Enc) load(st *State, a Addr, t types.Type) Val {
 		e.assumeLoadedRange(cur, lf)
 	}
 	v, _ := e.unflatten(t, ts)
+	if a.Kind == AGlobal && a.I == nil {
+		e.sentinelGlobal(a, t, ts)
+	}
 	return v
 }
 
+// sentinelGlobal: package-level error variables named Err*/err* hold distinct non-nil values that
+// are never reassigned (assumption A-glob).
+func (e *Enc) sentinelGlobal(a Addr, t types.Type, ts []T) {
+	if _, ok := under(t).(*types.Interface); !ok || len(ts) != 2 {
+		return
+	}
+	name := a.G.Name()
+	if !(strings.HasPrefix(name, "Err") || strings.HasPrefix(name, "err") || name == "EOF") {
+		return
+	}
+	k := "sentinel:" + ts[0].S
+	if e.rangeSeen[k] {
+		return
+	}
+	e.rangeSeen[k] = true
+	id := e.eng.sentinelID(a.G.String())
+	e.s.Assume(And(Not(Eq(ts[0], IntLit(0))), Eq(ts[1], IntLit(int64(id)))))
+	e.note("A-glob: sentinel error variable " + shortKey(a.G.String()) + " is non-nil, distinct from other sentinels and never reassigned")
+}
+
 func (e *Enc) assumeLoadedRange(c T, l leaf) {
-	if e.rangeSeen[c.S] {
+	if e.rangeSeen[c.S] || strings.Contains(c.S, "bv!") {
 		return
 	}
 	switch l.kind {
-	case "len", "cap", "off", "tag":
+	case "len", "cap", "off":
+		e.rangeSeen[c.S] = true
+		e.s.Assume(And(Ge(c, IntLit(0)), Le(c, IntBig(maxSliceLen))))
+	case "tag":
 		e.rangeSeen[c.S] = true
 		e.s.Assume(Ge(c, IntLit(0)))
 	case "":
